@@ -139,6 +139,15 @@ def main():
                 print(f"{status:14} {v['id']:40} {v['kind']:6} {','.join(v['props'])}  {msg}")
     nb = sum(1 for v in vs if v["kind"] == "break")
     print(f"selftest: {len(vs)} variants ({nb} breaking, {len(vs) - nb} benign), {bad} problems, {time.time() - t0:.1f}s")
+    if not bad and sel is None:
+        # the controls are now validated for exactly this tree (see cminx_sa.__main__.run_controls)
+        sys.path.insert(0, VERIF)
+        from cminx_sa.__main__ import tree_digest
+        import json
+        json.dump({"digest": tree_digest(REPO), "variants": len(vs),
+                   "note": "written by a full selftest run with 0 problems; the thorough tier treats a control failure as a defect "
+                           "of the checker only on a tree with this digest"},
+                  open(os.path.join(VERIF, "selftest", "validated_tree.json"), "w"), indent=1)
     return 1 if bad else 0
 
 
